@@ -1957,6 +1957,24 @@ def reshape_loops(tree, ref, ref_locals):
                     # ---- (A') `while True: [if C: break;] B [; if v: break]`  ->  `while not C: B`  where the reference tests at the top ----
                     now_tests = [_txt(n.test) for n in _own_walk(fn) if isinstance(n, ast.While)]
                     missing_tests = [t for t in ref_wh.get(q, []) if t not in ('True', '(True)', '1') and t not in now_tests]
+                    if missing_tests and st.body and isinstance(st.body[0], ast.If) and not st.body[0].orelse and len(st.body[0].body) == 1 and isinstance(st.body[0].body[0], ast.Break):
+                        # `while T: if C: break; B`  is  `while T and not C: B`  (C is evaluated right after T either way)
+                        from .cfg import canon_test as _ct
+                        f0 = st.body[0]
+                        notc = f0.test.operand if isinstance(f0.test, ast.UnaryOp) and isinstance(f0.test.op, ast.Not) else ast.UnaryOp(op=ast.Not(), operand=f0.test)
+                        cand = notc if _const_truth(st.test) is True else ast.BoolOp(op=ast.And(), values=[st.test, notc])
+                        ast.fix_missing_locations(ast.copy_location(cand, st.test))
+                        try:
+                            wanted = {_ct(ast.parse(t_, mode='eval').body) for t_ in missing_tests}
+                            hit = _ct(cand) in wanted
+                        except SyntaxError:
+                            hit = False
+                        if hit:
+                            st.test = cand
+                            st.body = st.body[1:] or [ast.copy_location(ast.Pass(), f0)]
+                            changed = True
+                            total += 1
+                            break
                     if missing_tests and _const_truth(st.test) is True and st.body:
                         f0, fl = st.body[0], st.body[-1]
                         if isinstance(f0, ast.If) and not f0.orelse and len(f0.body) == 1 and isinstance(f0.body[0], ast.Break) and \
@@ -1992,6 +2010,75 @@ def reshape_loops(tree, ref, ref_locals):
                     break
             if not changed:
                 break
+    if total:
+        ast.fix_missing_locations(tree)
+    return total
+
+
+def _else_default_shape(st):
+    """(name, final else value) when ``st`` is an if / elif chain whose every branch is exactly one plain binding of the same local and whose
+    final else binds it to a literal, a name or a dotted constant; else None"""
+    name, cur = None, st
+    while True:
+        if not (isinstance(cur, ast.If) and len(cur.body) >= 1 and isinstance(cur.body[-1], ast.Assign) and len(cur.body[-1].targets) == 1 and isinstance(cur.body[-1].targets[0], ast.Name)):
+            return None
+        n_ = cur.body[-1].targets[0].id
+        if name is None:
+            name = n_
+        elif n_ != name:
+            return None
+        # (statements in front of the binding prepare its value: they do not touch the name, and they do not leave)
+        if any(isinstance(x, ast.Name) and x.id == name for x in ast.walk(cur.test)) or any(isinstance(x, ast.Name) and x.id == name for x in ast.walk(cur.body[-1].value)) or \
+                any(isinstance(x, ast.Name) and x.id == name for s_ in cur.body[:-1] for x in ast.walk(s_)) or \
+                any(isinstance(x, (ast.Return, ast.Raise, ast.Break, ast.Continue, ast.FunctionDef, ast.ClassDef)) for s_ in cur.body[:-1] for x in ast.walk(s_)):
+            return None
+        if len(cur.orelse) == 1 and isinstance(cur.orelse[0], ast.If):
+            cur = cur.orelse[0]
+            continue
+        if len(cur.orelse) == 1 and isinstance(cur.orelse[0], ast.Assign) and len(cur.orelse[0].targets) == 1 and isinstance(cur.orelse[0].targets[0], ast.Name) and \
+                cur.orelse[0].targets[0].id == name:
+            v = cur.orelse[0].value
+            if isinstance(v, ast.Constant) or (isinstance(v, (ast.Name, ast.Attribute)) and all(isinstance(x, (ast.Name, ast.Attribute, ast.Load)) for x in ast.walk(v)) and
+                                                  not any(isinstance(x, ast.Name) and x.id == name for x in ast.walk(v))) or \
+                    (isinstance(v, ast.UnaryOp) and isinstance(v.operand, ast.Constant)):
+                return name, cur
+        return None
+
+
+def else_default_texts(fn):
+    return sorted(_shape_txt(n) for n in _own_walk(fn) if isinstance(n, ast.If) and _else_default_shape(n) is not None)
+
+
+def hoist_else_defaults(tree, ref):
+    """`if c: v = A  [elif ..: v = B]  else: v = D`  (D a literal / plain name / dotted constant, the tests do not read v)  ->
+    `v = D; if c: v = A [elif ..: v = B]`: binding a default cannot fail and nothing looks at v in between.  Only chains the reference
+    function does not have in that form."""
+    known = ref.get('else_defaults')
+    if known is None:
+        return 0
+    total = 0
+    for q, fn in functions(tree):
+        keep = list(known.get(q, []))
+        for block in _blocks(fn):
+            i = 0
+            while i < len(block):
+                st = block[i]
+                sh = _else_default_shape(st) if isinstance(st, ast.If) else None
+                if sh is not None:
+                    t_ = _shape_txt(st)
+                    if t_ in keep:
+                        keep.remove(t_)
+                    else:
+                        name, last = sh
+                        dflt = last.orelse[0]
+                        last.orelse = []
+                        for x_ in ast.walk(dflt):                  # it now stands in front of the chain: rules order statements by line
+                            if hasattr(x_, 'lineno'):
+                                x_.lineno = x_.end_lineno = st.lineno - 0.5
+                        block.insert(i, dflt)
+                        i += 1
+                        total += 1
+                i += 1
     if total:
         ast.fix_missing_locations(tree)
     return total
@@ -2274,6 +2361,7 @@ def shape_of(tree):
         'bool_returns': {q: _bool_returns(f) for q, f in functions(tree) if _bool_returns(f)},
         'calls': {q: call_counts(f) for q, f in functions(tree) if call_counts(f)},
         'whiles': {q: while_texts(f) for q, f in functions(tree) if while_texts(f)},
+        'else_defaults': {q: else_default_texts(f) for q, f in functions(tree) if else_default_texts(f)},
     }
 
 
@@ -4023,7 +4111,7 @@ def normalise(tree, path, ref_locals, model=None):
                      ('methods', lambda: rename_methods(tree, ref)), ('formats', lambda: restyle_formats(tree, ref)), ('closures', lambda: restore_closures(tree, ref) + restore_closures_from_objects(tree, ref)), ('self', lambda: restore_self(tree, ref)), ('tuples', lambda: split_tuple_bindings(tree, ref)), ('suppress', lambda: expand_suppress(tree, ref)), ('constants', lambda: _constants(tree, ref)),
                      ('observability', lambda: drop_observability(tree, ref)), ('params', lambda: default_new_params(tree, ref) + default_new_params(tree, ref)), ('initliterals', lambda: inline_init_literals(tree, ref)),
                      ('structs', lambda: inline_struct_objects(tree, ref)),
-                     ('anytests', lambda: lower_any_tests(tree, ref)), ('loops', lambda: reshape_loops(tree, ref, ref_locals)), ('helpers', lambda: inline_helpers(tree, ref)), ('namedtuples2', lambda: dissolve_namedtuples(tree, ref, path, model)), ('records', lambda: scalarise_records(tree, ref)), ('tuplevars', lambda: scalarise_tuple_locals(tree, ref, ref_locals)), ('ifexps0', lambda: expand_ifexps(tree, ref)), ('flagtails', lambda: sink_flag_tails(tree, ref, ref_locals)), ('decided', lambda: fold_decided_branches(tree, ref)), ('trivia', lambda: drop_trivia(tree, ref)), ('ifexps', lambda: expand_ifexps(tree, ref)), ('boolreturns', lambda: expand_bool_returns(tree, ref)),
+                     ('anytests', lambda: lower_any_tests(tree, ref)), ('loops', lambda: reshape_loops(tree, ref, ref_locals)), ('helpers', lambda: inline_helpers(tree, ref)), ('namedtuples2', lambda: dissolve_namedtuples(tree, ref, path, model)), ('records', lambda: scalarise_records(tree, ref)), ('tuplevars', lambda: scalarise_tuple_locals(tree, ref, ref_locals)), ('elsedefaults', lambda: hoist_else_defaults(tree, ref)), ('ifexps0', lambda: expand_ifexps(tree, ref)), ('flagtails', lambda: sink_flag_tails(tree, ref, ref_locals)), ('decided', lambda: fold_decided_branches(tree, ref)), ('trivia', lambda: drop_trivia(tree, ref)), ('ifexps', lambda: expand_ifexps(tree, ref)), ('boolreturns', lambda: expand_bool_returns(tree, ref)),
                      ('unrolled', lambda: unroll_loops(tree, ref)), ('builtlists', lambda: scalarise_built_lists(tree, ref, ref_locals)),
                      ('comprehensions', lambda: expand_comprehensions(tree, ref) + collapse_append_loops(tree, ref)), ('ifexps2', lambda: expand_ifexps(tree, ref)),
                      ('ranges', lambda: split_live_ranges(tree, ref_locals or {})), ('temps', lambda: inline_temps(tree, path, ref_locals or {})),
